@@ -53,7 +53,7 @@ def main():
             evidence_file="/verif/evidence/%s.json" % pid,
             replay_cmd_template="./check --replay {path}",
             engine="verus+kani",
-            level_claimed=dict(category="proof", text=P["level_text"], design_ref="DESIGN.md section 5 (%s)" % pid),
+            level_claimed=dict(category=P.get("category", "proof"), text=P["level_text"], design_ref="DESIGN.md section 4 (%s)" % pid),
             level_note="Trusted: " + "; ".join(props.TRUSTED_BASE) + ". Assumed: " + ("; ".join(P.get("assumptions", [])) or "nothing further")
                        + ". Bounded stand-ins are listed separately in the evidence file and never counted as discharged.",
             technique=TECH.get(pid, "contract-based deductive verification (Verus / Kani)"),
